@@ -209,7 +209,7 @@ class Case:
         try:
             with warnings.catch_warnings(), Trace(kinds=trace_kinds) as tr:
                 warnings.simplefilter("ignore")
-                if self.solver_name == "GramCD":
+                if self.solver_name == "GramCD" and self.df_name is None:
                     w, obj, stop = solver.solve(self.X, self.y, None, pen, w0, xw0)
                 else:
                     w, obj, stop = solver.solve(self.X, self.y, df, pen, w0, xw0)
